@@ -133,32 +133,7 @@ def check(ctx):
         ctx.require(R2, good, upc[0].where() if upc else "-", "update_account_contacts runs only when the contacts fingerprint changed", [SYNC, "contacts-update-condition"])
 
     R3 = ctx.rule("R3", "key roll-over: old key = get_past_key(endpoint.key_hash); oldKey = its JWK; account = stored URL; posted to keyChange")
-    kb = prog.async_body(UPK)
-    gp = kb.calls_to(ACC + "::get_past_key")
-    ctx.floor(R3, "get_past_key call", len(gp), 1)
-    for c in gp:
-        ctx.require(R3, (ACCEP, "key_hash") in arg_origins(c, 1).fields, c.where(), "the old key is looked up by the fingerprint the endpoint still holds", [UPK, "old-key-lookup"])
-    ro = kb.calls_to("acmed::acme_proto::structs::account::AccountKeyRollover::new")
-    ctx.floor(R3, "AccountKeyRollover::new call", len(ro), 1)
-    for c in ro:
-        ctx.require(R3, (ACCEP, "account_url") in arg_origins(c, 0, through=True).fields, c.where(), "rollover.account = the stored account URL", [UPK, "rollover-account"])
-        ok_ = any(x.is_(ACC + "::get_past_key") for x in arg_origins(c, 1, through=True).calls) and (ACC, "current_key") not in arg_origins(c, 1, through=True).fields
-        ctx.require(R3, ok_, c.where(), "rollover.oldKey is built from the key returned by get_past_key (not the current key)", [UPK, "rollover-old-key"])
-    rn = prog.must_body("acmed::acme_proto::structs::account::AccountKeyRollover::new")
-    for i, st in agg_assigns(rn, "acmed::acme_proto::structs::account::AccountKeyRollover"):
-        fs = st["rv"]["fields"]
-        ctx.require(R3, origins(rn, st["rv"]["ops"][fs.index("account")]).has_leaf("param:1"), where(rn, i), "AccountKeyRollover.account <- account_str", ["AccountKeyRollover::new", "account"])
-        o = origins(rn, st["rv"]["ops"][fs.index("old_key")], through=True)
-        ctx.require(R3, o.has_leaf("param:2") and any("jwk_public_key" in x.name and "thumbprint" not in x.name for x in o.calls), where(rn, i), "AccountKeyRollover.old_key <- old_key.jwk_public_key()", ["AccountKeyRollover::new", "old_key"])
-    gpk = prog.must_body(ACC + "::get_past_key")
-    eq = [c for c in gpk.calls if c.fn in ("core::cmp::PartialEq::eq",)]
-    ok_ = False
-    for c in eq:
-        a, b_ = arg_origins(c, 0, through=True), arg_origins(c, 1, through=True)
-        if (any(x.is_("acmed::account::hash_key") for x in a.calls) and b_.has_leaf("param:2")) or (any(x.is_("acmed::account::hash_key") for x in b_.calls) and a.has_leaf("param:2")):
-            ok_ = True
-    ctx.require(R3, ok_ and (ACC, "past_keys") in origins(gpk, {"l": 0, "p": []}, through=True).fields, "%s:%s" % (gpk.file, gpk.line),
-                "get_past_key returns the superseded key whose fingerprint equals the argument", [ACC + "::get_past_key", "match"])
+    rollover_key_rule(ctx, R3)
 
     must_follow(ctx)
     persistence(ctx)
@@ -257,6 +232,12 @@ def persistence(ctx):
                 got = {n for a, n in sl.fields if a == src_adt}
                 ctx.require(R5, got == {f}, where(body, i), "%s: %s.%s <- %s.%s (found %s)" % (role, adt.rsplit("::", 1)[1], f, src_adt.rsplit("::", 1)[1], f, sorted(got)),
                             [body.key.split("::{closure")[0], role, adt.rsplit("::", 1)[1], f])
+                # ... whole: collections are converted element by element, none is filtered, truncated or reordered on the way
+                from .c01 import shrinkers_in
+                sl2 = origins(body, o, stop_adts=(src_adt,))
+                shr = [v for v in shrinkers_in(sl2) if not v.endswith("::get_context")]
+                ctx.require(R5, not shr, where(body, i), "%s: %s.%s keeps every element (%s)" % (role, adt.rsplit("::", 1)[1], f, shr),
+                            [body.key.split("::{closure")[0], role + "-whole", adt.rsplit("::", 1)[1], f])
     ds = prog.async_body("acmed::account::storage::do_save")
     check_literal(ds, "acmed::account::storage::AccountStorage", "acmed::account::Account", "save")
     df = prog.async_body("acmed::account::storage::do_fetch")
@@ -355,3 +336,36 @@ def load_errors(ctx):
     for c in nb.calls_to("acmed::config::Account::to_generic"):
         errs = [tg for t in try_edges(nb, [c.dest["l"]]) if not t["adt"].endswith("Poll") for tg in t["err"]]
         ctx.require(R6, bool(errs) and all(not (set(okb) & nb.reachable([e])) for e in errs), c.where(), "an account that cannot be loaded makes MainEventLoop::new fail", ["MainEventLoop::new", "account-load-error"])
+
+
+def rollover_key_rule(ctx, R3):
+    """shared with C04.R5: the key-change request is authorised by the key the CA still has on record for this endpoint —
+    get_past_key(endpoint.key_hash), a lookup by fingerprint among the superseded keys — and oldKey is that key's JWK"""
+    prog = ctx.prog
+    kb = prog.async_body(UPK)
+    gp = kb.calls_to(ACC + "::get_past_key")
+    ctx.floor(R3, "get_past_key call", len(gp), 1)
+    for c in gp:
+        ctx.require(R3, (ACCEP, "key_hash") in arg_origins(c, 1).fields, c.where(), "the old key is looked up by the fingerprint the endpoint still holds", [UPK, "old-key-lookup"])
+    ro = kb.calls_to("acmed::acme_proto::structs::account::AccountKeyRollover::new")
+    ctx.floor(R3, "AccountKeyRollover::new call", len(ro), 1)
+    for c in ro:
+        ctx.require(R3, (ACCEP, "account_url") in arg_origins(c, 0, through=True).fields, c.where(), "rollover.account = the stored account URL", [UPK, "rollover-account"])
+        ok_ = any(x.is_(ACC + "::get_past_key") for x in arg_origins(c, 1, through=True).calls) and (ACC, "current_key") not in arg_origins(c, 1, through=True).fields
+        ctx.require(R3, ok_, c.where(), "rollover.oldKey is built from the key returned by get_past_key (not the current key)", [UPK, "rollover-old-key"])
+    rn = prog.must_body("acmed::acme_proto::structs::account::AccountKeyRollover::new")
+    for i, st in agg_assigns(rn, "acmed::acme_proto::structs::account::AccountKeyRollover"):
+        fs = st["rv"]["fields"]
+        ctx.require(R3, origins(rn, st["rv"]["ops"][fs.index("account")]).has_leaf("param:1"), where(rn, i), "AccountKeyRollover.account <- account_str", ["AccountKeyRollover::new", "account"])
+        o = origins(rn, st["rv"]["ops"][fs.index("old_key")], through=True)
+        ctx.require(R3, o.has_leaf("param:2") and any("jwk_public_key" in x.name and "thumbprint" not in x.name for x in o.calls), where(rn, i), "AccountKeyRollover.old_key <- old_key.jwk_public_key()", ["AccountKeyRollover::new", "old_key"])
+    gpk = prog.must_body(ACC + "::get_past_key")
+    eq = [c for c in gpk.calls if c.fn in ("core::cmp::PartialEq::eq",)]
+    ok_ = False
+    for c in eq:
+        a, b_ = arg_origins(c, 0, through=True), arg_origins(c, 1, through=True)
+        if (any(x.is_("acmed::account::hash_key") for x in a.calls) and b_.has_leaf("param:2")) or (any(x.is_("acmed::account::hash_key") for x in b_.calls) and a.has_leaf("param:2")):
+            ok_ = True
+    ctx.require(R3, ok_ and (ACC, "past_keys") in origins(gpk, {"l": 0, "p": []}, through=True).fields, "%s:%s" % (gpk.file, gpk.line),
+                "get_past_key returns the superseded key whose fingerprint equals the argument", [ACC + "::get_past_key", "match"])
+
